@@ -1,0 +1,12 @@
+//go:build verif
+
+package batched
+
+import "github.com/cloudflare/pat-go/tokens"
+
+// Hook for the /verif correspondence harness (compiled only with -tags verif).
+
+// VerifRequests returns the decoded requests of a batch.
+func (r *BatchedTokenRequest) VerifRequests() []tokens.TokenRequestWithDetails {
+	return r.token_requests
+}
